@@ -18,24 +18,28 @@ T = {
          "re.sub-free; Python str semantics of split/lstrip/rstrip/strip as modelled in Str.lean.", "Lean 4 proof (induction over lines) + differential correspondence"),
  'C02': ("T_agg: for every well-formed nested module the flat stack machine (model of the listener) yields exactly the structural specification "
          "(pre-order, one entry per documentable command, members inside their class); per-kind and ordering theorems read the property off the "
-         "specification. Tie: `documented` list and page text of the real pipeline vs model vs independent Python specification.",
-         "Well-formedness hypotheses are explicit (arity, balanced blocks, declarations followed by their definition); K2 (command named generic_command) is a known finding.",
+         "specification. T_aggS (TAggSeq.lean) extends the refinement to the awaiting-definition slot as the code has it: declarations separated from "
+         "their implementing definition by ordinary commands, and implementing definitions with a doccomment of their own; T_agg is its special case. "
+         "Tie: `documented` list and page text of the real pipeline vs model vs independent Python specification (duplicated elements, split "
+         "declarations, documented implementations included).",
+         "Well-formedness hypotheses are explicit and decidable (itemsWf / itemsWfS: arity, balanced blocks, a declaration is followed by its definition in the same list); the share of generated modules inside each domain is in the evidence; K2 (command named generic_command) is a known finding.",
          "Lean 4 refinement proof (stack machine ⊑ structural spec) + differential correspondence"),
  'C03': ("T_agg + C03_*: name never stripped, parameters stripped position-wise for EVERY strip function, **kwargs iff trigger in doc or a "
          "cmake_parse_arguments call directly in the body (not in nested/sibling/later definitions). Tie: kwargs-profile modules with random trigger strings "
-         "and strip patterns.", "re.sub enters the theorems as an arbitrary function; Python computes it for the correspondence.",
+         "and strip patterns, documented implementing definitions (D14: C03_documented_impl_step/_balanced/_cpa, D14_witness).", "re.sub enters the theorems as an arbitrary function; Python computes it for the correspondence.",
          "Lean 4 refinement proof + differential correspondence"),
  'C04': ("C04_layout: for all valid modules m1, m2 related by LayoutVariant (same lower-cased command names and parse-tree arguments, doccomments with "
          "the same cleaned text — any separators, comments, doc-block indentation, name case), pipeline(render m1) = pipeline(render m2); built from "
          "T_lex/T_parse/T_roundtrip (printer -> scanner -> parser), T_agg and C01_clean_reindent; C04_token_sequence for the literal 'same token "
-         "sequence' sentence. CRLF: C04_crlf_partial (doc cleaning level only). Tie: one abstract module under k layouts + CRLF through the real "
-         "pipeline, byte comparison; scanner model vs ANTLR incl. skipped tokens.",
-         "ANTLR lexer semantics modelled by hand; CRLF statement checked by correspondence (norm = drop \\r and blank lines).",
+         "sequence' sentence. CRLF: C04_crlf_page / C04_crlf_page_text (page level, doccomments of the prescribed form). Tie: one abstract module under k "
+         "layouts + CRLF through the real pipeline, byte comparison; untidy doccomment blocks (empty lines, closing line deeper than the body) rendered "
+         "verbatim: CRLF pair and whole-block re-indentation; scanner model vs ANTLR incl. skipped tokens.",
+         "ANTLR lexer semantics modelled by hand; untidy blocks are outside the DocC form of the layout theorems and carried by the correspondence and the shift theorem where registered.",
          "Lean 4 proof (round trip printer→scanner→parser→stack machine) + differential correspondence on layout families"),
  'C05': ("T_pipeline / C05_accepted: every valid (Module.valid), well-formed module of the reference syntax written from cmake-language(7) is processed "
          "to completion, pipeline(render m) = page of the structural specification; C05_boundaries: the commands CMinx sees are exactly the abstract "
          "module's commands with the same argument boundaries; C06_parse_exact. Tie: real parse tree vs abstract module; CMake 3.25's own argument lists (--trace-format=json-v1) as "
-         "independent reference; shipped CMake modules; known findings K2, K3 delimit the guarantee.",
+         "independent reference; shipped CMake modules; known findings K2, K3 delimit the guarantee. T_pipelineS / C05_acceptedS: the same over the sequence-aware domain (itemsWfS).",
          "Legacy unquoted arguments, `[=` degenerate arguments, recursion-limit nesting, non-UTF-8 input are outside the guarantee.",
          "Lean 4 proof (round trip + refinement) + differential correspondence + CMake trace oracle"),
  'C06': ("C06_lex_lossless (every source character lies in exactly one token), C06_tok_wf, fault-class theorems for every reached position "
@@ -78,7 +82,7 @@ T = {
          "K6 (mapping accepted for rst.headers) is an open known finding.", "Lean 4 proof of decision logic + exhaustive enumeration of the finite configuration space"),
  'C17': ("C17_history (files generated for one input are the same alone and inside any longer run), location/cwd are not inputs of the model, C15_order for listing "
          "order. Hash seed and repetition have no counterpart in a functional model: carried by the correspondence (two cwds, two locations, permuted listings, repeated "
-         "runs, longer runs; thorough: PYTHONHASHSEED variants).", "K7 (patterns match absolute paths above the input) is an open known finding.",
+         "runs, longer runs, PYTHONHASHSEED children, children under other locales/encodings, time zones, terminal sizes and umasks).", "K7 (patterns match absolute paths above the input) is an open known finding.",
          "Lean 4 proof (history independence) + differential variants on the real code"),
  'C18': ("C18_none (no write without output directory), C18_stdout (stdout = pages of the -o run, in order, each + two newlines), C18_same_pages. 'Inside the output "
          "directory' is by construction in the model; on the real code it is a sandbox snapshot (path, sha256) before/after.", "open()/makedirs trusted.",
